@@ -1590,8 +1590,21 @@ class SecurityBase(Node):
                     # can take one unit too many off: step back up while one
                     # more unit still fits
                     while full_outlay_of_1_more <= amount and i <= 1e4:
-                        q = q + 1
-                        full_outlay = full_outlay_of_1_more
+                        # as many units as the cost of that one more unit
+                        # says the budget still covers (size-proportional
+                        # costs can leave the step above thousands of units
+                        # short), or a single unit if that jump overshoots
+                        k = 1
+                        if full_outlay_of_1_more > full_outlay:
+                            k = max(1, math.floor((amount - full_outlay) / (full_outlay_of_1_more - full_outlay)))
+                        jump = full_outlay_of_1_more
+                        if k > 1:
+                            jump, _, _, _ = self.outlay(q + k)
+                            if jump > amount:
+                                k = 1
+                                jump = full_outlay_of_1_more
+                        q = q + k
+                        full_outlay = jump
                         full_outlay_of_1_more, _, _, _ = self.outlay(q + 1)
                         i = i + 1
 
